@@ -142,6 +142,17 @@ PROPS["C01"] = {
         Job("soyhtml", "H_ternary", "0..8,0..8", workers=8),
         Job("soyhtml", "H_print", "0..8", workers=8),
         Job("soyhtml", "H_dataref", "0..5,0..8", workers=8),
+        Job("parse", "H_minus", "false", workers=4),
+        Job("parse", "H_minus", "true", workers=4),
+        Job("parse", "H_prec", "0..13,0..13,0..2", workers=16),
+        Job("parse", "H_prec", "0..13,0,3..7", workers=8),
+        Job("parse", "H_accept", "0..26,0..32", workers=16),
+        Job("parse", "H_quote", "0..3", workers=8),
+        Job("parse", "H_unquote", "0..2", workers=8),
+        Job("parse", "H_scanNumber", "1..4", workers=16),
+        Job("parse", "H_quote", "4", tier="thorough", workers=16),
+        Job("parse", "H_unquote", "3", tier="thorough", workers=16),
+        Job("parse", "H_scanNumber", "5", tier="thorough", workers=16),
     ],
     "bounds": "evaluator: every binary operator x every pair of 9 operand kinds (undefined, null, bool, int |i|<=2^31, any float64 bit pattern, 1-byte string, empty string, list, map) with symbolic payloads; unary ops; ternary; short-circuit forms with an erroring skipped operand; data references ([int], ?[int], .key, ?.key, [string], ?[string]) on every kind with index in [-2,3]; printed text for bool/null/string/list/map and ints in [-11,11]",
     "outside": "text of printed floats and of ints beyond [-11,11] (strconv); strings longer than 1 byte as operands; integer overflow (the reference assumes |i| <= 2^31); round() with a precision (math.Pow); randomInt beyond range membership; float arithmetic is checked as 'which IEEE operation on which operands', not re-verified",
